@@ -67,6 +67,7 @@ let keep (t : tok) : bool =
   | "C07", _ -> true
   | "C08", (TUser _ | TStore _) -> true
   | "C09", (TLookup (KLT, _, _, _) | TStore _ | TApi _) -> true
+  | "C10", (TRecv _ | TAck _ | TUser _) -> true
   | "C11", (TCall ((KAW | KNR | KCL | KNS | KSC | KTW | KRV), _, _, _) | TAck _) -> true
   | "C12", (TCall (KTL, _, _, _) | TTCreate _ | TTEnd _ | TLookup _ | TStore _) -> true
   | "C12", TUser (u, _, _, _, _) -> (match u with UFTimer _ | UFTimeout _ -> true | _ -> false)
